@@ -76,7 +76,12 @@ class UserAction(Contract):
             self.force = force.e
             self.attrs = attrs
             self.emit_arg = node
-            return [W.tracks, Sym(node), attrs], {"pixels": None, "force": force, "_top_level": top}
+            pixels = None
+            if W.seg is not None:
+                from pyvc.segmodel import PixSet
+                pixels = PixSet.fresh(ctx, "pixels")
+            self.pixels = pixels
+            return [W.tracks, Sym(node), attrs], {"pixels": pixels, "force": force, "_top_level": top}
         if n == "UserSwapPredecessors":
             n1, n2 = ctx.fresh("node1", Int), ctx.fresh("node2", Int)
             self.named = [n1, n2]
@@ -99,6 +104,14 @@ class UserAction(Contract):
                              IMP(has(K.pk), z3.Not(is_VNone(at(K.pk))))))
             # the lineage of a new node is derived by the action (attributes "must contain time and track_id")
             I.ctx.assume(z3.Not(has(K.lk)))
+            if W.seg is not None:
+                # documented preconditions of adding a node with a mask: non-empty, in the node's frame, onto background
+                from pyvc.segmodel import as_pixcore
+                from . import segspec
+                core = as_pixcore(self.pixels)
+                node = self.named[0]
+                I.ctx.assume(AND(node != 0, z3.Exists([segspec.p_], core.mem(segspec.p_)), IMP(has(K.tk), core.t == iv(at(K.tk))),
+                                 forall([segspec.p_], IMP(core.mem(segspec.p_), W.v0.Seg(core.t, segspec.p_) == 0))))
 
     def run(self, I, cfg):
         ctx = I.ctx
@@ -117,6 +130,10 @@ class UserAction(Contract):
             # M1b on the entry state (L1 is assumed there): lineage ids are equal along descendant paths
             B0 = C.below_of(I, W, view=W.v0)
             ctx.assume(IMP(W.act["lineage"], forall([a_, b_], IMP(B0.rel(a_, b_), T.lid(W.v0, W.K, a_) == T.lid(W.v0, W.K, b_)))), "lemma.M1b")
+        if W.seg is not None:
+            from . import segprims
+            segprims.install_seg(I, W)
+            segprims.assume_seg_invariants(I, W, which=("S", "R", "Q"))
         C.install_callsite_contracts(I, W)
         P.install_loopspecs(I, W)
         P.install_prim_contracts(I, W)
@@ -180,7 +197,8 @@ class UserAction(Contract):
         # C03 forest, C04 track ids = segments (local form T1 & T2; global form by lemma M2),
         # C06 lookups agree with the graph and maxima dominate
         for lbl, f, props in inv_clauses(W, C.Snap(W, I)):
-            ctx.oblige(f"{props[0]}/{q}/ensures:{lbl}", f, props=props, drop=DROP.get(lbl.split(".")[0] if not lbl.startswith("C06.B2.lin") else "C05", ()))
+            fam = lbl.split(".")[0] if not lbl.startswith("C06.B2.lin") else "C05"
+            ctx.oblige(f"{props[0]}/{q}/ensures:{lbl}", f, props=props, drop=DROP.get(fam, ()))
 
 
 # axiom scoping (DESIGN 3.5): hypotheses a clause family does not need are left out of its obligations
@@ -189,6 +207,9 @@ DROP = {
     "C04": ("cache.", "inv.C06.B1", "inv.C05"),
     "C05": ("seg", "cache.", "inv.C04", "inv.C06.B1", "inv.C06.B2.trk"),
     "typing": ("seg", "cache.", "inv.C04", "inv.C06"),
+    "C07": ("cache.", "inv.C06", "inv.C10", "seg"),
+    "C08": ("cache.", "inv.C06", "inv.C10", "seg"),
+    "C09": ("cache.", "inv.C06", "inv.C10", "seg"),
 }
 
 
@@ -204,6 +225,9 @@ def inv_clauses(W, s1):
         out += [(lbl, IMP(W.act["lineage"], f), ("C05",)) for lbl, f in T.LINEAGE(v1, K)]
         out.append(("C06.B2.lin", IMP(W.act["lineage"], forall([a_], IMP(v1.N(a_), iv(T.lid(v1, K, a_)) <= s1.maxL))), ("C06", "C05")))
         out.append(("C06.B1.lin", IMP(W.act["lineage"], forall([C_i, a_], s1.L[1](C_i, a_) == z3.If(AND(v1.N(a_), v1.A(a_, K.lk) == VInt(C_i)), 1, 0))), ("C06",)))
+    if W.seg is not None:
+        from . import segspec
+        out += segspec.S_goals(W, v1) + segspec.R_clauses(W.ctx, W, v1) + segspec.Q_clause(W.ctx, W, v1)
     return out
 
 
